@@ -479,7 +479,16 @@ pub fn run(args: &Args) -> (Meta, Stats) {
     if let Some(p) = &args.replay {
         let mut st = Stats::new();
         let v: Value = serde_json::from_str(&std::fs::read_to_string(p).unwrap_or_default()).unwrap_or(Value::Null);
-        check_text(v["input"].as_str().unwrap_or(""), &mut st);
+        let input = v["input"].as_str().unwrap_or("");
+        if input.len() > 20000 {
+            // the deep document: no minimisation (each probe costs seconds)
+            st.case(Some(hash_str(input)));
+            if let Some((sig, d)) = check_input(input, None, &mut st) {
+                st.violation(&format!("deep:{sig}"), &d, v.clone());
+            }
+        } else {
+            check_text(input, &mut st);
+        }
         st.distinct.insert(1);
         st.distinct.insert(2);
         return (super::meta(args, "replay of one recorded case (attribute lists taken from a tokenizer-only run)", &[]), st);
